@@ -462,3 +462,105 @@ _add("C08", [("C08_level_far_double", "SatTie.v", "cmp_level_far_double"), ("C08
 _add("C10", [("C10_far_double", "SatTie.v", "efi_far_double"), ("C10_far_float", "SatTie.v", "efi_far_float"),
              ("C10_below_limit_no_overflow", "SatTie.v", "below_limit_no_overflow")], imports=("Fp", "GenLeaf", "SatTie"))
 _add("C01", [("C01_too_far_value", "SatTie.v", "pgm_too_far_value")], imports=("Fp", "GenLeaf", "SatTie"))
+
+# ---- end-to-end compositions (Compose*.v), float hypothesis discharge (FloatOkFar/FloatOkAll), count bound (CountBound.v),
+# ---- run-time certificate for the compressed index (CmpCert*.v); statements obtained with Check (closed over their sections)
+_IDXC = ("Fp", "MappedQueries", "FloatOkFar", "FloatOkAll", "ComposeIdx", "ComposeBuild", "ComposeFloat")
+_add("C01", [("C01_build_total", "@check", "build_total"), ("C01_search_contract", "@check", "search_contract"),
+             ("C01_build_search_contract", "@check", "build_search_contract"),
+             ("C01_float_ok_double", "@check", "float_ok_double"), ("C01_float_ok_of_exact", "@check", "float_ok_of_exact"),
+             ("C01_float_ok_of_small_span", "@check", "float_ok_of_small_span"), ("C01_float_ok_of_small_partial", "@check", "float_ok_of_small_partial"),
+             ("C01_index_contract_double", "@check", "index_contract_double"), ("C01_index_contract_small_span", "@check", "index_contract_small_span"),
+             ("C01_float_ok_not_general_for_float", "@check", "cx_not_float_ok")], imports=_IDXC)
+_add("C02", [("C02_search_contract_valid", "@check", "search_contract_valid"), ("C02_index_contract_double", "@check", "index_contract_double"),
+             ("C02_index_contract_small_span", "@check", "index_contract_small_span"), ("C02_eval_ok_double_all", "@check", "eval_ok_double_all"),
+             ("C02_eval_ok_far", "@check", "eval_ok_far")], imports=_IDXC)
+_add("C04", [("C04_segments_count_bound_tight", "@check", "segments_count_bound_tight"), ("C04_segments_count_bound", "@check", "segments_count_bound"),
+             ("C04_build_segments_count_bound", "@check", "build_segments_count_bound")],
+     imports=("Fp", "GenLeaf", "IndexModel", "IndexProofs", "IdxFed", "IdxSeg", "IdxLevel", "IdxChain", "CountBound"))
+_DYNC = ("Fp", "IdxChain", "DynExec", "FloatOkAll", "ComposeIdx", "ComposeBuild", "ComposeDyn", "ComposeDynGood", "ComposeFloat")
+_add("C05", [("C05_gops_contract", "@check", "gops_contract"), ("C05_find_idx", "@check", "C05_find_idx"),
+             ("C05_lower_bound_idx", "@check", "C05_lower_bound_idx"), ("C05_find_typed", "@check", "C05_find_typed"),
+             ("C05_lower_bound_typed", "@check", "C05_lower_bound_typed"), ("C05_find_double", "@check", "C05_find_double"),
+             ("C05_lower_bound_double", "@check", "C05_lower_bound_double")], imports=_DYNC)
+_add("C06", [("C06_range_idx", "@check", "C06_range_idx"), ("C06_iter_typed", "@check", "C06_iter_typed"), ("C06_iter_double", "@check", "C06_iter_double")], imports=_DYNC)
+_add("C15", [("C15_hist_idx", "@check", "C15_hist_idx"), ("C15_ihist", "@check", "C15_ihist"), ("C15_typed", "@check", "C15_typed")], imports=_DYNC)
+_add("C09", [("C09_bucketing_search_contract", "@check", "bucketing_search_contract"), ("C09_bucketing_contract_total", "@check", "bucketing_contract_total")],
+     imports=("Fp", "MappedQueries", "ComposeIdx", "ComposeBuild", "ComposeBucket"))
+_add("C11", [("C11_mapped_at", "@check", "C11_mapped_at"), ("C11_mapped_total", "@check", "C11_mapped_total"), ("C11_mapped_double", "@check", "C11_mapped_double")],
+     imports=("Fp", "IdxChain", "FloatOkAll", "ComposeIdx", "ComposeBuild", "ComposeMapped", "ComposeFloat"))
+_add("C13", [("C13_inner_contract", "@check", "multi_inner_contract"), ("C13_end_to_end_partial", "@check", "multi_index_end_to_end_partial")],
+     imports=("Fp", "IdxChain", "ComposeIdx", "ComposeBuild", "ComposeMulti"))
+_add("C14", [("C14_inner_contract", "@check", "multi_inner_contract")], imports=("Fp", "IdxChain", "ComposeIdx", "ComposeBuild", "ComposeMulti"))
+_add("C18", [("C18_search_contract_e2e", "@check", "C18_search_contract"), ("C18_create_null_iff", "@check", "C18_create_null_iff"),
+             ("C18_create_search", "@check", "C18_create_search")], imports=("Fp", "IdxChain", "Reject", "ComposeIdx", "ComposeBuild", "ComposeCapi"))
+_add("C08", [("C08_cert_sound", "@check", "cmp_cert_sound"), ("C08_cert_sound_build", "@check", "cmp_cert_sound_build"),
+             ("C08_search_trace_iff", "@check", "compressed_search_trace_iff"), ("C08_cert_fast_is_spec", "@check", "cmp_cert_b_spec"),
+             ("C08_fmul_mono", "@check", "fmul_to_i64_mono"), ("C08_fmul_presat", "@check", "fmul_to_i64_presat"),
+             ("C08_cl_eval_mono", "@check", "cl_eval_mono"), ("C08_root_pos_mono", "@check", "croot_pos_mono")],
+     imports=("Fp", "FloatOkLemmas", "CmpCertDefs", "CmpMono", "CmpCertFast", "CmpCertProofs"))
+
+def _hdr(pid, text): TABLE[pid]["header"] += "\n" + text
+
+_hdr("C01", """   Added (Compose*/FloatOk*): * C01_build_total: for every valid configuration and sorted data of at most 2^30 keys the
+     build SUCCEEDS (no exception) with fewer than 2^32 segments; * C01_build_search_contract: build + contract under float_ok_valid;
+   * C01_index_contract_double: UNCONDITIONAL end-to-end theorem for Floating = double (float_ok discharged from Flocq for every key,
+     C01_float_ok_double); * C01_index_contract_small_span / C01_float_ok_of_small_span / _small_partial: either Floating type when the
+     positions stay below the precision threshold (2^22 float, 2^50 double); * C01_float_ok_not_general_for_float: the hypothesis
+     float_ok itself is FALSE for some float configurations (6 keys; the capped position is still right) -- which is why the float
+     case keeps float_ok as a hypothesis and is judged per query at run time;
+   * C01_too_far_value: the saturation limit of Segment::operator() regenerated from the source is the model's 2^63.""")
+_hdr("C02", """   Added: C02_search_contract_valid, C02_index_contract_double (unconditional for Floating = double), C02_index_contract_small_span,
+     C02_eval_ok_double_all / C02_eval_ok_far (one evaluation: every key difference for double; far keys for either type).""")
+_hdr("C04", """   Added (CountBound.v): the closed-form count bound IS now proved: C04_segments_count_bound_tight
+     (count <= n/(2eps+1) + (1 if sequential else par)), C04_segments_count_bound (+ par + 1, the documented form),
+     C04_build_segments_count_bound (for PGMIndex::segments_count()).""")
+_hdr("C05", """   Added (ComposeDyn/ComposeDynGood/ComposeFloat): the abstract contract assumed of the per-level index is DISCHARGED for the real
+     PGMIndex model: C05_gops_contract (guarded instance), C05_find_idx / C05_lower_bound_idx (histories whose levels stay within the
+     index's size limits), C05_find_typed / C05_lower_bound_typed (checkable per-step premises: key in type, capacity <= 2^30),
+     C05_find_double / C05_lower_bound_double (Floating = double: no floating-point hypothesis left).""")
+_hdr("C06", """   Added: C06_range_idx, C06_iter_typed, C06_iter_double: range/iteration with the real PGMIndex model as the per-level index.""")
+_hdr("C15", """   Added: C15_hist_idx / C15_ihist / C15_typed: the invariants for the container instantiated with the real PGMIndex model;
+     C15_bulk_*_tie: the bulk-load level arithmetic regenerated from the source equals the model's.  The run-time judge now also
+     checks that every dumped per-level index is built over that level's CURRENT keys (pgm_keys_ok_b).""")
+_hdr("C08", """   Added (CmpCert*.v, CmpMono.v): RUN-TIME CERTIFICATE with a soundness theorem.  C08_cert_sound: if the boolean certificate
+     cmp_cert_b c data cp holds (structural bounds + the contract at the representative queries {every key, both ends of every gap,
+     below the first / above the last key} + equal routing traces at the two ends of each gap) then compressed_search satisfies the
+     C08 contract for EVERY query below the sentinel.  The lifting from the representatives to all 2^64 queries is by monotonicity
+     of one level step in the key for a fixed segment (C08_fmul_mono: Flocq; C08_cl_eval_mono; C08_root_pos_mono).  The check
+     evaluates cmp_cert_b on every generated index (judge C08cert in the evidence); a false certificate names failing queries,
+     which are then run through the implementation.  C08_cert_fast_is_spec: the one-pass form that is executed equals the naive
+     specification.  C08_*_tie / C08_*_far_*: windows, clamp bounds, bit-vector sizes and saturation limits regenerated from the
+     source equal the model's; C08_below_limit_no_overflow: below the (new) limit the int64 sum cannot overflow.""")
+_hdr("C09", """   Added (ComposeBucket.v): C09_bucketing_search_contract: the search contract for EVERY query (early exits outside [first,last],
+     the one-level index inside); C09_bucketing_contract_total: construction succeeds and the contract holds.  C09_*_tie: step,
+     table size and shift regenerated from the source; C09_ceil_int_div_spec.""")
+_hdr("C11", """   Added (ComposeMapped.v): C11_mapped_at / C11_mapped_total: all four queries exact with the REAL index model underneath
+     (construction succeeds for n <= 2^30); C11_mapped_double: no floating-point hypothesis for Floating = double.""")
+_hdr("C13", """   Added (ComposeMulti.v): C13_inner_contract: the inner index's contract is proved for the sorted Morton codes (q < sentinel);
+     C13_end_to_end_partial keeps one hypothesis for query codes at or above the sentinel (all-ones code when dims*bits = width).""")
+_hdr("C18", """   Added (ComposeCapi.v): C18_search_contract_e2e, C18_create_null_iff, C18_create_search: wrapper configuration
+     (EpsilonRecursive = 4, run-time epsilon) composed with the index theorems.""")
+_add("C07", [("C07_pos_cap_tie", "LeafTie.v", "pgm_pos_cap_tie")])
+_add("C01", [("C01_pos_cap_tie", "LeafTie.v", "pgm_pos_cap_tie")])
+_add("C02", [("C02_pos_cap_tie", "LeafTie.v", "pgm_pos_cap_tie")])
+_add("C08", [("C08_pos_cap_tie", "LeafTie.v", "cmp_pos_cap_tie")])
+_add("C09", [("C09_pos_cap_tie", "LeafTie.v", "bkt_pos_cap_tie")])
+_add("C10", [("C10_pos_cap_tie", "LeafTie.v", "efi_pos_cap_tie")])
+_add("C18", [("C18_pos_cap_tie", "LeafTie.v", "capi_pos_cap_tie")])
+_FLT = ("Fp", "MappedQueries", "FloatOkFar", "FloatOkAll", "FloatOkCap", "ComposeIdx", "ComposeBuild", "ComposeFloat", "ComposeFloat32")
+_add("C01", [("C01_index_contract_float", "@check", "index_contract_float"), ("C01_index_contract_std", "@check", "index_contract_std"),
+             ("C01_float_ok_cap_float", "@check", "float_ok_cap_float"), ("C01_eval_ok_cap_float", "@check", "eval_ok_cap_float"),
+             ("C01_contract_where_float_ok_fails", "@check", "cx_contract")], imports=_FLT)
+_add("C02", [("C02_index_contract_float", "@check", "index_contract_float"), ("C02_index_contract_std", "@check", "index_contract_std"),
+             ("C02_build_search_contract_cap", "@check", "build_search_contract_cap")], imports=_FLT)
+_add("C11", [("C11_mapped_float", "@check", "C11_mapped_float")], imports=("FloatOkCap", "ComposeFloat32"))
+_hdr("C01", """   CLOSED for Floating = float as well (FloatOkCap.v, ComposeFloat32.v): C01_index_contract_float: for every sorted input with
+     n + Epsilon <= 2^22 - 1 and n + 1 + EpsilonRecursive <= 2^22 - 1 the build succeeds and EVERY query satisfies the contract,
+     with NO floating-point hypothesis (the chain proofs now consume the weaker interface float_ok_cap: an evaluation is either
+     within rounding distance of the exact line or both it and the exact value are above the level's cap; proved from Flocq for
+     every evaluation); C01_index_contract_std: float and double in one statement; C01_contract_where_float_ok_fails: the contract
+     derived from the theorem on the very instance where float_ok is false.  C01_pos_cap_tie: the type argument of
+     std::min<size_t> at the capping sites, regenerated from the source, does not narrow the prediction.""")
+_hdr("C02", """   CLOSED for Floating = float under the same size bound: C02_index_contract_float / C02_index_contract_std (no floating-point
+     hypothesis, every query below the sentinel, every EpsilonRecursive).""")
